@@ -127,7 +127,9 @@ def derive_hints(requests):
 
 
 def _scan_sets_for_gzip(data, table, depth=0):
-    if depth > 6:
+    # the gunzip oracle's table: one entry per compressed value the decoder can reach; the client follows at most
+    # MAX_COMPRESSION_DEPTH (8) levels, a few more are listed so that a change of that bound shows as a disagreement
+    if depth > 12:
         return
     try:
         msgs, _ = kproto.parse_message_set_prefix(data)
